@@ -917,6 +917,9 @@ func Run(c *common.Ctx) error {
 	}
 	foreignStream(c, root)
 	postAcquireFailure(c, root)
+	if err := handoffPingPong(c, root); err != nil {
+		return err
+	}
 	if err := consulScenarios(c, c.Rng.Fork()); err != nil {
 		return fmt.Errorf("consul: %w", err)
 	}
